@@ -12,13 +12,13 @@ BASELINE = (
 
 # id: (level, technique, level text, level note, design section, engine)
 T = {
-    "C01": ("exploration", "offline checker over a multi-process event log (exactly-once + happens-before + stuck-state model) and marker-file invariant inside the walk callback, under instrumented multiprocessing with delay profiles",
+    "C01": ("exploration", "offline checker over a multi-process event log (exactly-once + happens-before + stuck-state model) and marker-file invariant inside the walk callback, under instrumented multiprocessing with delay profiles (incl. producer stalls, heavy-tailed callbacks, pauses inside Event.is_set, one late worker), statement-boundary delay injection (sys.monitoring) and non-fork start methods",
             "Every walk (serial and parallel, 1-32 workers) on generated generic/TOAST/filtered/sub-pyramid inputs is recorded at the callback and queue boundary and checked against an independent live-parent model; schedules are diversified by a catalogue of delay profiles and time-dilated queue time-outs.",
             "Held on the executions observed only; schedules are sampled (profiles x seeds x OS noise), not enumerated. Trusts the O_APPEND event log ordering and the reference quadtree model.", "3/C01", "instr_mp+evlog"),
-    "C02": ("exploration", "reference-model oracle (independent 2x2 block reduction of the stored children) over generated sparse pyramids in every mode/format, serial vs parallel comparison, boundary history from a logging PyramidIO",
+    "C02": ("exploration", "reference-model oracle (independent 2x2 block reduction of the stored children) over generated sparse pyramids in every mode/format, serial vs parallel comparison, boundary history from a logging PyramidIO, re-cascade histories and source-free I/O failpoints",
             "Generated leaf layers (sparse, NaN/transparent patterns, all modes and formats) are cascaded by the real code; every produced/absent parent is compared with an independent reference computed from the files on disk read with numpy/astropy/PIL.",
             "Held on generated inputs only. jpg compared at the write boundary (lossy). Integer rounding mode not demanded (|out-mean|<1).", "3/C02", "ref-oracles"),
-    "C03": ("exploration", "offline exactly-once / conservation checker over the event log of each parallel stage (leaf visits, transforms, multi-TAN, multi-WCS) with slow-feeder, slow-worker, late-start and burst delay profiles, compared with the serial run",
+    "C03": ("exploration", "offline exactly-once / conservation checker over the event log of each parallel stage (leaf visits, transforms, multi-TAN, multi-WCS) with slow-feeder, slow-worker, late-start, late-check, stall and burst delay profiles, statement-boundary delays, refused forks and killed workers, compared with the serial run",
             "Each parallel stage is run on generated item sets with 2-32 workers under instrumented multiprocessing; the log must show every item processed exactly once by exactly one worker, all workers exited before return, and the same set as serial mode.",
             "Held on observed schedules only. Trusts the event log ordering and the logging PyramidIO.", "3/C03", "instr_mp+evlog"),
     "C04": ("exploration", "independent reference model of the TOAST subdivision (unit-vector octahedron refinement) compared with every tile from all four construction routes; exhaustive to a depth bound, sampled beyond",
@@ -27,25 +27,25 @@ T = {
     "C05": ("exploration", "reference-model oracle on toast_tile_get_coords: full 256x256 grids compared with an independent vectorised refinement and with toasty's own Python subdivision eight levels deeper; ASan/UBSan lane on the rebuilt extension as diagnostics",
             "The compiled subdivision is run on all shallow tiles and sampled deep tiles of both coordinate systems and compared pixel by pixel with two independent computations.",
             "Compiled extension as built (pyx/c coherence guard). Tolerance 1e-12.", "3/C05", "ref-oracles"),
-    "C06": ("exploration", "reference oracle over files written by sample_layer/sample_layer_filtered/toast_base/tile-allsky with position-revealing samplers, all formats, clobber/update modes, serial vs parallel",
+    "C06": ("exploration", "reference oracle over files written by sample_layer/sample_layer_filtered/toast_base/tile-allsky with position-revealing samplers, all formats and byte orders, clobber/update modes, serial vs parallel, concurrent update jobs under statement-boundary delays on a dilated clock",
             "Real sampling runs are read back with numpy/astropy/PIL and compared exactly with the sampler evaluated at the tile's own pixel grid; tile sets are compared with the reference leaf set.",
             "Trusts toast_tile_get_coords (checked by C05). jpg compared at the write boundary.", "3/C06", "ref-oracles"),
-    "C07": ("exploration", "oracle on filter decisions (a tile with a pixel centre inside the region, with margin, must be accepted along its whole ancestor path) under random and directed adversarial geometry generators; mutation guard on the inspected tile; filtered-vs-unfiltered sampling comparison",
+    "C07": ("exploration", "oracle on filter decisions (a tile with a pixel centre inside the region, with margin, must be accepted along its whole ancestor path) under random and directed adversarial geometry generators; mutation guard on the inspected tile; filtered-vs-unfiltered sampling comparison; chunked sampling in several request orders with transient read failpoints; filters asked from concurrent threads",
             "Box, footprint and chunk filters are evaluated on real tiles with cached pixel grids; false negatives are searched with pin-point boxes and directed footprints aimed at the bounding-box refinement.",
             "astropy.wcs is the oracle for footprints. Compiled extension as built.", "3/C07", "ref-oracles"),
-    "C08": ("exploration", "reference oracle on StudyTiling geometry (exhaustive per axis to a bound) and on tiles written by the real tiling entry points, read back through the WTML URL template",
+    "C08": ("exploration", "reference oracle on StudyTiling geometry (exhaustive per axis to a bound) and on tiles written by the real tiling entry points, read back through the WTML URL template; re-tiling histories, shared / pickled tiling objects, write failpoints",
             "Every width 1..2049 against boundary heights is checked for padded size, centring, disjoint covering rectangles and counts; images of boundary sizes in all modes/formats are tiled and reassembled exactly.",
             "Exhaustive per axis only; pixel read-backs on sampled sizes.", "3/C08", "ref-oracles"),
-    "C09": ("exploration", "reference oracle: multi-TAN tiling of generated decompositions vs study tiling of the pasted mosaic, across orders, parities and worker counts, with instrumented multiprocessing",
+    "C09": ("exploration", "reference oracle: multi-TAN tiling of generated decompositions vs study tiling of the pasted mosaic, across orders, parities, grid rotations and worker counts, with instrumented multiprocessing, statement-boundary delays on a dilated lock clock and a killed worker",
             "Random mosaics are decomposed into overlapping/NaN-bordered FITS inputs, tiled by MultiTanProcessor (API and CLI) and compared tile by tile and field by field with the mosaic tiled as one image.",
             "Held on generated mosaics. Overlaps agree by construction.", "3/C09", "ref-oracles"),
-    "C10": ("exploration", "history + executable model: every concurrent update logs the set of uniquely tagged contributions it observed; offline serial-chain checker (linearizability of read-modify-write) plus torn-read detection",
+    "C10": ("exploration", "history + executable model: every concurrent update logs the set of uniquely tagged contributions it observed; offline serial-chain checker (linearizability of read-modify-write) plus torn-read detection; statement-boundary delays, dilated and real long holds, the real multi-image stages with one late worker",
             "2-8 real processes update one tile through update_image with delays inside the critical section; the recorded observations must form one serial chain and the final tile must contain every contribution.",
             "Held on observed interleavings only.", "3/C10", "instr_mp+evlog"),
-    "C11": ("exploration", "reference oracle with identity maps: the returned value names the cell read, compared with the documented layout in float64 with either-adjacent-cell tolerance at boundaries",
+    "C11": ("exploration", "reference oracle with identity maps: the returned value names the cell read, compared with the documented layout in float64 with either-adjacent-cell tolerance at boundaries; coexisting samplers, map memory layouts, calls from concurrent threads",
             "All sampler variants on maps of many shapes incl. 1-pixel axes are driven with random, boundary, pole, periodic and real TOAST grid inputs.",
             "Ecliptic variant checked for layout-independent clauses only. Galactic oracle is astropy via SkyCoord.", "3/C11", "ref-oracles"),
-    "C12": ("exploration", "reference oracle: containment by signed great-circle distance to the reference tile's edges, nesting, periodicity, nearest-pixel distance; uniform, polar and structure-point generators",
+    "C12": ("exploration", "reference oracle: containment by signed great-circle distance to the reference tile's edges, nesting, periodicity, nearest-pixel distance; uniform, polar and structure-point generators, tracks across tile edges, nanoradian pairs at depth 24, lookups from concurrent threads",
             "Point lookups in both coordinate systems at depths 0-12 are checked against the independent TOAST reference.",
             "Tolerance 1e-9 rad on shared edges.", "3/C12", "ref-oracles"),
     "C13": ("exploration", "reference quadtree model vs generate_pos/pos algebra and the three counters vs callbacks actually observed in leaf visits and walks; exhaustive for small depths",
@@ -57,16 +57,16 @@ T = {
     "C15": ("exploration", "contract wrappers on fill/update_into_maskable_buffer, write_image and read_image (element-wise reference, snapshot before/after) under generated workloads and under the repository's own tests; persistence histories against a small file-state model",
             "Every mode x indexer kind x mask pattern is driven through the real buffer methods with an element-wise reference; tile write/read/update histories are checked against a model of the file state.",
             "Paired-index-array update is outside the statement (rectangles).", "3/C15", "contracts"),
-    "C16": ("exploration", "reference oracle: astropy pix2world before vs after the flip for every pixel; idempotence of ensure_negative_parity",
+    "C16": ("exploration", "reference oracle: astropy pix2world before vs after the flip for every pixel; idempotence of ensure_negative_parity; groups of live images, one WCS on several heights, foreign pixel_shape, non-default poles",
             "Random linear celestial WCS (CD and PC forms, rotation, skew, both parities) are flipped by the real code and compared on the sky.",
             "astropy.wcs is the oracle.", "3/C16", "ref-oracles"),
     "C17": ("exploration", "independent template expansion vs files on disk for every workflow emitting index_rel.wtml; call histories on one output directory for tile_fits",
             "Each workflow is run for real and its WTML parsed with xml.etree; expanded URLs must equal the written tile set.",
             "HiPS and network sources not covered.", "3/C17", "ref-oracles"),
-    "C18": ("fault_enumeration", "fault enumeration over the put_item history: every directory order x every fault point (before/during/after each transfer, before rename) as exception and as real crash, with a store-invariant oracle",
+    "C18": ("fault_enumeration", "fault enumeration over the put_item history: every directory order x every fault point (before/during/after each transfer, before rename) as exception, transient error, real SIGINT and real crash, faults inside the real put_item, with a store-invariant oracle",
             "publish() is run with os.listdir wrapped to return every permutation and a fault injected at every point; the store invariant and the recovery run are checked after each.",
             "Local store only; crashes emulated by os._exit in a forked child.", "3/C18", "faultpoints"),
-    "C19": ("fault_enumeration", "fault enumeration: an exception injected at each item of each parallel stage; outcome classified by the event log (raised / returned / stuck-state model / watchdog)",
+    "C19": ("fault_enumeration", "fault enumeration: an exception (incl. unpicklable), a signal death or an I/O failpoint injected at each item of each parallel stage; outcome classified by the event log (raised / returned / stuck-state model / watchdog)",
             "Each stage x worker count x item gets one injected failure; only a visible failure to the caller satisfies the property.",
             "Stuck state decided by protocol state, not time.", "3/C19", "faultpoints"),
     "C20": ("exploration", "reference oracle with marker-valued multi-extension FITS files: shape, marker and CRPIX identify (file, HDU, WCS key) actually loaded",
